@@ -75,3 +75,66 @@ Proof.
     + unfold on_rebroadcast, assert_hostname. cbn [snd]. intros [H|[H|[]]]; discriminate.
   - intros [].
 Qed.
+
+(* ------------------------------------------------------------------ C09: one defence round between two hostname objects *)
+Lemma host_records_suffix : forall rs h, (h_suffix h <= h_suffix (fst (host_records rs h)))%N.
+Proof.
+  induction rs as [|r rs IH]; intro h; cbn [host_records]; [cbn; lia|].
+  destruct (hostname_conflict r (h_name h)); [|apply IH].
+  unfold assert_hostname.
+  match goal with |- context [host_records rs ?h1] => specialize (IH h1); destruct (host_records rs h1) as [h2 e2] end.
+  cbn [fst h_suffix set_host] in *. lia.
+Qed.
+
+Lemma bytes_eqb_true a : bytes_eqb a a = true.
+Proof. apply bytes_eqb_refl. Qed.
+
+(* the probe a newcomer sends for candidate name n *)
+Definition host_probe (n : bytes) (src : addr) : message :=
+  mkMessage src 5353 0 false false [mkQuery (Some n) T_A false; mkQuery (Some n) T_AAAA false] [].
+
+Definition addr_answer (n : bytes) (type : N) (a : addr) : record :=
+  set_addr a (set_type type (set_name (Some n) default_record)).
+
+Lemma spec_answers_probe n ifs src :
+  spec_answers n ifs src [mkQuery (Some n) T_A false; mkQuery (Some n) T_AAAA false] =
+  (match spec_address src 1 ifs with Some a => [addr_answer n 1 a] | None => [] end) ++
+  (match spec_address src 28 ifs with Some a => [addr_answer n 28 a] | None => [] end).
+Proof.
+  cbn [spec_answers]. unfold spec_question. cbn [q_type q_name bs_data]. rewrite bytes_eqb_refl.
+  change (T_A =? 1)%N with true. change (T_A =? 28)%N with false. change (T_AAAA =? 1)%N with false. change (T_AAAA =? 28)%N with true.
+  cbn [orb andb]. change T_A with 1%N. change T_AAAA with 28%N.
+  destruct (spec_address src 1 ifs), (spec_address src 28 ifs); reflexivity.
+Qed.
+
+Lemma conflict_of_answer n type a : (type = 1 \/ type = 28)%N -> hostname_conflict (addr_answer n type a) n = true.
+Proof. intros [-> | ->]; unfold hostname_conflict, addr_answer; cbn; unfold bs_eqb; cbn; rewrite bytes_eqb_refl; reflexivity. Qed.
+
+Theorem defence_round now now' h1 h2 src :
+  h_reg h1 = true -> h_reg h2 = false -> h_name h2 = h_name h1 ->
+  (spec_address src 1 (h_ifaces h1) <> None \/ spec_address src 28 (h_ifaces h1) <> None) ->
+  exists reply,
+    snd (host_handle now h1 (EvMsg (host_probe (h_name h1) src))) = [ESend reply] /\
+    m_response reply = true /\ m_port reply = 5353%N /\
+    (h_suffix h2 + 1 <= h_suffix (fst (host_handle now' h2 (EvMsg reply))))%N.
+Proof.
+  intros R1 R2 Hn Hsrc.
+  rewrite (host_query_reply now h1 (host_probe (h_name h1) src) eq_refl). cbn [snd].
+  unfold spec_host_reply. rewrite R1. cbn [negb orb host_probe m_response m_queries m_addr m_port m_id].
+  rewrite spec_answers_probe.
+  assert (Step : forall type a rest, (type = 1 \/ type = 28)%N ->
+            (h_suffix h2 + 1 <= h_suffix (fst (host_records (addr_answer (h_name h1) type a :: rest) h2)))%N).
+  { intros type a rest Ht. cbn [host_records]. rewrite Hn, (conflict_of_answer (h_name h1) type a Ht).
+    unfold assert_hostname.
+    match goal with |- context [host_records rest ?hh] => pose proof (host_records_suffix rest hh) as HS; destruct (host_records rest hh) as [h3 e3] end.
+    cbn [fst h_suffix set_host] in *. lia. }
+  destruct (spec_address src 1 (h_ifaces h1)) as [a4|] eqn:S4; destruct (spec_address src 28 (h_ifaces h1)) as [a6|] eqn:S6;
+    cbn [app].
+  - eexists. split; [reflexivity|]. split; [reflexivity|]. split; [reflexivity|].
+    cbn [host_handle m_response m_records]. rewrite R2. apply Step. left; reflexivity.
+  - eexists. split; [reflexivity|]. split; [reflexivity|]. split; [reflexivity|].
+    cbn [host_handle m_response m_records]. rewrite R2. apply Step. left; reflexivity.
+  - eexists. split; [reflexivity|]. split; [reflexivity|]. split; [reflexivity|].
+    cbn [host_handle m_response m_records]. rewrite R2. apply Step. right; reflexivity.
+  - destruct Hsrc as [X|X]; congruence.
+Qed.
